@@ -37,6 +37,8 @@ def shapes(tier, seed):
     n1s, n2s, fs = ((1, 2), (1, 2, 3, 4), (1, 2, 3, 4)) if tier == "quick" else ((1, 2, 3), (1, 2, 3, 4, 5, 6), (1, 2, 3, 4, 5, 6))
     out = [{"kind": "pt", "n1": a, "n2": b, "frames": f} for a in n1s for b in n2s for f in fs]
     out += [{"kind": "pt", "n1": 1, "n2": b, "frames": 2, "history": True} for b in (1, 2, 3)]
+    # the optional `dimensions` keyword (a periodic cell handed to the constructor) must not change any placement
+    out += [{"kind": "pt", "n1": a, "n2": b, "frames": 2, "dims": True} for a in (1, 2) for b in (1, 2)]
     out += [{"kind": "center", "n1": a, "n2": b} for a in n1s for b in n2s]
     out += [{"kind": "universe", "n1": a, "n2": b, "frames": f} for a in (1, 2) for b in ((1, 2, 3) if tier == "quick" else (1, 2, 3, 4)) for f in ((1, 2, 3) if tier == "quick" else (1, 2, 3, 4, 5))]
     out.append({"kind": "rotation_lemma", "n1": 0, "n2": 0})
@@ -88,6 +90,10 @@ def run_pt(shape):
         eng.declare_sign(m, "+")
     eng.assume_global(*pre)
     names1, names2 = [f"A{i}" for i in range(n1)], [f"B{i}" for i in range(n2)]
+    cell = z3.Real("cell")
+    if shape.get("dims"):
+        eng.assume_global(cell > 0)
+        eng.declare_sign(cell, "+")
 
     def body():
         with bound(P, Rotation=FRot, Merge=FMerge, print=noprint, np=NPProxy()):
@@ -101,7 +107,10 @@ def run_pt(shape):
                 # history: a first pseudotrajectory is started on the same molecules and abandoned after one frame
                 first = P.Pseudotrajectory(u1, u2, sarr([[SR(v) for v in g] for g in grid])).generate_pseudotrajectory()
                 next(first)
-            pt = P.Pseudotrajectory(u1, u2, sarr([[SR(v) for v in g] for g in grid]))
+            if shape.get("dims"):
+                pt = P.Pseudotrajectory(u1, u2, sarr([[SR(v) for v in g] for g in grid]), dimensions=(SR(cell), SR(cell), SR(cell), 90, 90, 90))
+            else:
+                pt = P.Pseudotrajectory(u1, u2, sarr([[SR(v) for v in g] for g in grid]))
             frames = [(i, u.atoms.positions.copy(), list(u.atoms.names)) for i, u in pt.generate_pseudotrajectory()]
             # the caller's universes must not have been moved
             return frames, u1.atoms.positions.copy(), u2.atoms.positions.copy()
@@ -340,7 +349,11 @@ def replay(cex):
             first = P.Pseudotrajectory(u1, u2, grid).generate_pseudotrajectory()
             next(first)
         try:
-            frames = [(i, u.atoms.positions.copy(), list(u.atoms.names)) for i, u in P.Pseudotrajectory(u1, u2, grid).generate_pseudotrajectory()]
+            kw = {}
+            if shape.get("dims"):
+                c_ = abs(g("cell", 30.0)) or 30.0
+                kw["dimensions"] = (c_, c_, c_, 90, 90, 90)
+            frames = [(i, u.atoms.positions.copy(), list(u.atoms.names)) for i, u in P.Pseudotrajectory(u1, u2, grid, **kw).generate_pseudotrajectory()]
         except Exception as e:  # noqa: BLE001
             return {"reproduced": True, "detail": f"raised {e!r}"}
     bad = []
@@ -367,7 +380,7 @@ def replay(cex):
 
 def finding_key(cex):
     s = cex["shape"]
-    return f"C10:{s['kind']}{':history' if s.get('history') else ''}:{cex['obligation'].split('[')[0]}"
+    return f"C10:{s['kind']}{':history' if s.get('history') else ''}{':dims' if s.get('dims') else ''}:{cex['obligation'].split('[')[0]}"
 
 
 def selftest(seed):
